@@ -161,6 +161,34 @@ impl Acc {
             self.items.push(s);
         }
     }
+    /// the same as push(show_entry(..)) without building the string when only the digest is kept
+    fn push_entry(&mut self, k: &[u8], ts: u64, v: Option<&[u8]>) {
+        if self.verbose {
+            self.push(show_entry(k, ts, v));
+            return;
+        }
+        const HEX: &[u8; 16] = b"0123456789abcdef";
+        let mut h = self.h;
+        let mut hexb = |h: &mut u64, b: &[u8]| {
+            for x in b {
+                *h = (*h ^ (HEX[(x >> 4) as usize] as u64)).wrapping_mul(0x100000001b3);
+                *h = (*h ^ (HEX[(x & 15) as usize] as u64)).wrapping_mul(0x100000001b3);
+            }
+        };
+        hexb(&mut h, k);
+        h = fnv(h, b"@");
+        h = fnv(h, ts.to_string().as_bytes());
+        match v {
+            Some(v) => {
+                h = fnv(h, b"=");
+                hexb(&mut h, v);
+            }
+            None => h = fnv(h, b"~"),
+        }
+        h = fnv(h, b"\n");
+        self.h = h;
+        self.n += 1;
+    }
     fn show(&self) -> String {
         if self.verbose {
             format!("{}:{:016x}[{}]", self.n, self.h, self.items.join(","))
@@ -247,7 +275,7 @@ fn walk<C: Cursor>(cur: &mut C, forward: bool, verbose: bool) -> String {
         }
         match cur.key() {
             None => return format!("{}!end", acc.show()),
-            Some(k) => acc.push(show_entry(k.key, k.timestamp, cur.value())),
+            Some(k) => acc.push_entry(k.key, k.timestamp, cur.value()),
         }
         guard += 1;
         if guard > 50_000_000 {
@@ -467,7 +495,7 @@ fn run(st: &mut St, line: &str, out: &Mutex<Vec<String>>) {
             match LogIterator::new(lo.clone(), &path) {
                 Ok(mut it) => loop {
                     match it.next() {
-                        Ok(Some(kvr)) => acc.push(show_entry(kvr.key, kvr.timestamp, kvr.value)),
+                        Ok(Some(kvr)) => acc.push_entry(kvr.key, kvr.timestamp, kvr.value),
                         Ok(None) => {
                             push(format!("it:{}!end", acc.show()));
                             break;
